@@ -357,10 +357,10 @@ func specInScope(stack []scope, n int, s scope) bool {
 //
 //@ func (*Parser).evaluateParams
 //@   loop @"for" invariant[C06] never-nil: params != nil
-//@   loop @"for" invariant[C07] no-parameter-name-twice-so-far: forall(a, 0, len(params), forall(b, 0, a, params[b].name != params[a].name))
+//@   loop @"for" invariant[C07,C10] no-parameter-name-twice-so-far: forall(a, 0, len(params), forall(b, 0, a, params[b].name != params[a].name))
 //@   loop @"range params" invariant[C07] the-new-name-differs-from-the-earlier-ones: forall(b, 0, rangeindex + 1, params[b].name != name)
 //@   ensures[C06] never-nil-on-success: err == nil ==> result0 != nil
-//@   ensures[C07] no-parameter-name-twice: err == nil ==> forall(a, 0, len(result0), forall(b, 0, a, result0[b].name != result0[a].name))
+//@   ensures[C07,C10] no-parameter-name-twice: err == nil ==> forall(a, 0, len(result0), forall(b, 0, a, result0[b].name != result0[a].name))
 //
 // The callback that evaluateFunctionDefinition hands to evaluateBlock looks at the body once it is
 // complete (last): a function that declares results must end in a return statement that returns
@@ -387,6 +387,8 @@ func specInScope(stack []scope, n int, s scope) bool {
 //@   ensures[C01,C04] one-branch-per-case-in-order: err == nil && calls(evaluateExpression) > ite(old(p.peekAt(1)).tokenType == lexer.OPENING_CURLY_BRACKET, 0, 1) ==> isType(result0, "parser.If") && 1 + len(specSwitchIf(result0).elifBranches) == calls(evaluateExpression) - ite(old(p.peekAt(1)).tokenType == lexer.OPENING_CURLY_BRACKET, 0, 1)
 //
 //@ func (*Parser).evaluateImports
+//@   loop @"for p.peek().Type() == lexer.NEWLINE" exit[C12] every-blank-line-after-the-opening-bracket-is-skipped: p.peek().tokenType != lexer.NEWLINE
+//@   loop @"for multiple && p.peek().Type() == lexer.NEWLINE" exit[C12] every-blank-line-between-the-imports-of-a-group-is-skipped: !multiple || p.peek().tokenType != lexer.NEWLINE
 //@   loop @"for#1" invariant[C13] every-imported-statement-so-far-is-there: forall(k, 0, len(statementsTemp), statementsTemp[k] != nil)
 //@   loop @"for#2" invariant[C13] every-imported-statement-so-far-is-there: forall(k, 0, len(statementsTemp), statementsTemp[k] != nil)
 //@   loop @"range statementsTemp" invariant[C13] every-statement-kept-so-far-is-there: forall(k, 0, len(statements), statements[k] != nil) && forall(k, 0, len(statementsTemp), statementsTemp[k] != nil)
@@ -507,6 +509,7 @@ func specInScope(stack []scope, n int, s scope) bool {
 //@   callsite checkNewVariableNameToken requires[C07] no-name-is-declared-twice-in-one-definition: forall(a, 0, len(nameTokens), forall(b, 0, a, nameTokens[b].value != nameTokens[a].value))
 //@   loop @"range nameTokens#2" invariant[C07,C10] names-checked-so-far: calls(checkNewVariableNameToken) == rangeindex + 1 && forall(k, 0, rangeindex + 1, arg(checkNewVariableNameToken, k, 1) == nameTokens[k])
 //@   loop @"range nameTokens#3" invariant[C06] a-variable-that-already-exists-keeps-its-type: len(variables) == rangeindex + 1 && forall(k, 0, rangeindex + 1, specVarVisible(ctx, nameTokens[k].value, p.prefix) ==> variables[k].valueType == get(ctx.variables, specVarKey(ctx, nameTokens[k].value, p.prefix)).valueType)
+//@   loop @"range nameTokens#3" invariant[C02,C07,C10] a-declared-variable-belongs-to-the-scope-it-is-declared-in: len(variables) == rangeindex + 1 && forall(k, 0, rangeindex + 1, variables[k].global == ctx.global())
 //@   loop @"range variables#2" invariant[C13] one-default-value-per-variable-so-far: len(values) == rangeindex + 1 && forall(k, 0, len(values), values[k] != nil)
 //@   loop @"range values" invariant[C06] types-of-the-values-in-order: len(valuesTypes) == rangeindex + 1 && forall(k, 0, len(valuesTypes), valuesTypes[k] == values[k].ValueType())
 //@   loop @"range variables#1" invariant[C06] variables-so-far-take-a-value-of-their-type: len(variables) == len(valuesTypes) && forall(k, 0, rangeindex + 1, variables[k].valueType.Equals(valuesTypes[k]))
